@@ -1,8 +1,164 @@
+import RichModel.Model.Term
+import RichModel.Model.Live
 import RichModel.Drv.Proto
-/- Driver handlers for property C10 (stub: filled in when the model is built). -/
-namespace RichModel.Drv.C10
-open RichModel RichModel.Proto
+/- Driver handlers for property C10 (terminal replay, live / progress / status state machine).
 
-def handlers : List (String × (List String → String)) := []
+Request formats (fields separated by TAB, see harness/props/c10.py):
+* `term_replay  H  ops`                         -> `rows;row;col;visible`
+* `live_run   cfg  init  faults  ops`           -> per operation `err;termops` joined by `|`, then `#` final control state
+* `live_with  cfg  init  faults  ops  raiseAt`  -> `termops#raised#` final control state
+* `live_spec  cfg  init  ops`                   -> `wf;printed;lastFrame`
+cfg  = `kind,transient,W,H,redirOut,redirErr,bareBypass,startGuard,overflow`  (numbers)
+init = initial renderable as a line list `n:l1,l2,…`
+faults = `-` | comma separated call indices, the last one optionally `k+` (every index ≥ k)
+ops  = operations joined by `|` : `S` `X` `B` `R` `P<lines>` `U<refresh>;<lines>` `A<visible>;<desc>`
+       `V<id>;<n>` `H<id>;<visible>;<refresh>` `D<id>`
+-/
+namespace RichModel.Drv.C10
+open RichModel RichModel.Proto RichModel.Live
+
+def encOp : TermOp → String
+  | .text s => "T" ++ encStr s
+  | .lf => "L"
+  | .cr => "C"
+  | .cuu n => "U" ++ toString n
+  | .el2 => "E"
+  | .showCursor => "S"
+  | .hideCursor => "H"
+  | .sgr _ => "G"
+  | .osc8 _ => "O"
+
+def encOps (l : List TermOp) : String := ",".intercalate (l.map encOp)
+
+def decTermOp (s : String) : Option TermOp :=
+  match s.toList with
+  | 'T' :: r => some (.text (decStr (String.ofList r)))
+  | ['L'] => some .lf
+  | ['C'] => some .cr
+  | 'U' :: r => (String.ofList r).toNat?.map .cuu
+  | ['E'] => some .el2
+  | ['S'] => some .showCursor
+  | ['H'] => some .hideCursor
+  | _ => none
+
+def decTermOps (s : String) : Option (List TermOp) :=
+  if s.isEmpty then some [] else (s.splitOn ",").mapM decTermOp
+
+def encScreen (s : Screen) : String :=
+  encStrList s.rows ++ ";" ++ toString s.row ++ ";" ++ toString s.col ++ ";" ++ encBool s.visible
+
+def decKind : String → Option Kind
+  | "0" => some .live | "1" => some .progress | "2" => some .status | _ => none
+
+def decOverflow : String → Option Overflow
+  | "0" => some .crop | "1" => some .ellipsis | "2" => some .visible | _ => none
+
+def decCfg (s : String) : Option (Cfg × Overflow) :=
+  match s.splitOn "," with
+  | [k, tr, w, h, ro, re, bb, sg, ov] => do
+    let kind ← decKind k
+    let ov ← decOverflow ov
+    let w ← w.toNat?
+    let h ← h.toNat?
+    some ({ kind := kind, transient := decBool tr, width := w, height := h, redirectStdout := decBool ro,
+            redirectStderr := decBool re, bareBypass := decBool bb, startGuard := decBool sg }, ov)
+  | _ => none
+
+def decFaults (s : String) : Option (Nat → Bool) :=
+  if s == "-" then some (fun _ => false) else
+    let parts := s.splitOn ","
+    let exact := parts.filterMap (fun p => p.toNat?)
+    let from_ := parts.filterMap (fun p => if p.endsWith "+" then (p.dropEnd 1).toString.toNat? else none)
+    if exact.length + from_.length != parts.length then none
+    else some (fun i => exact.contains i || from_.any (· ≤ i))
+
+def decOp1 (s : String) : Option Op :=
+  match s.toList with
+  | ['S'] => some .start
+  | ['X'] => some .stop
+  | ['B'] => some .printBare
+  | ['R'] => some .refresh
+  | 'P' :: r => some (.print (decStrList (String.ofList r)))
+  | 'U' :: r =>
+    match (String.ofList r).splitOn ";" with
+    | [rf, f] => some (.update (decStrList f) (decBool rf))
+    | _ => none
+  | 'A' :: r =>
+    match (String.ofList r).splitOn ";" with
+    | [v, d] => some (.addTask (decStr d) (decBool v))
+    | _ => none
+  | 'V' :: r =>
+    match (String.ofList r).splitOn ";" with
+    | [i, n] => do some (.advance (← i.toNat?) (← n.toNat?))
+    | _ => none
+  | 'H' :: r =>
+    match (String.ofList r).splitOn ";" with
+    | [i, v, rf] => do some (.setVisible (← i.toNat?) (decBool v) (decBool rf))
+    | _ => none
+  | 'D' :: r => (String.ofList r).toNat?.map .removeTask
+  | _ => none
+
+def decOpsL (s : String) : Option (List Op) :=
+  if s.isEmpty then some [] else (s.splitOn "|").mapM decOp1
+
+def encErr : Option Err → String
+  | none => "ok" | some .fault => "err:Fault" | some .keyError => "err:KeyError"
+
+def encShape : Option (Nat × Nat) → String
+  | none => "-" | some (w, h) => toString w ++ "x" ++ toString h
+
+def encCtl (st : St) : String :=
+  ",".intercalate [encBool st.started, toString st.hooks, toString st.stdoutDepth, toString st.stderrDepth,
+    encBool st.restoreStdout.isSome, encBool st.restoreStderr.isSome, encShape st.shape, toString st.taskIndex]
+
+/-- the model covers terminals of height ≥ 1; `ellipsis` needs width ≥ 3; progress rows must fit the width -/
+def inDomain (cfg : Cfg) (ov : Overflow) (ops : List Op) : Bool :=
+  1 ≤ cfg.height && (ov != .ellipsis || 3 ≤ cfg.width) && ops.all (Op.applies cfg.kind)
+
+def runPerOp (cfg : Cfg) (fails : Nat → Bool) : St → List Op → List String × St
+  | st, [] => ([], st)
+  | st, op :: rest =>
+    let r := step cfg fails st op
+    let (l, st') := runPerOp cfg fails r.st rest
+    ((encErr r.err ++ ";" ++ encOps r.out) :: l, st')
+
+/-- rows of the tasks table must fit the console width (otherwise Rich wraps: outside the model) -/
+def tableFits (cfg : Cfg) (st : St) : Bool := maxWidth st.renderable ≤ cfg.width
+
+def handlers : List (String × (List String → String)) := [
+  ("term_replay", fun a => match a with
+    | [h, ops] =>
+      match decTermOps ops with
+      | some l => if decNat h == 0 then "unmodelled" else encScreen (Screen.replay (decNat h) Screen.init l)
+      | none => "unmodelled"
+    | _ => "bad-args"),
+  ("live_run", fun a => match a with
+    | [cfg, init, faults, ops] =>
+      match decCfg cfg, decFaults faults, decOpsL ops with
+      | some (cfg, ov), some fails, some ops =>
+        if !inDomain cfg ov ops then "unmodelled" else
+        let (l, st) := runPerOp cfg fails (initSt ov (decStrList init)) ops
+        "|".intercalate l ++ "#" ++ encCtl st
+      | _, _, _ => "unmodelled"
+    | _ => "bad-args"),
+  ("live_with", fun a => match a with
+    | [cfg, init, faults, ops, raiseAt] =>
+      match decCfg cfg, decFaults faults, decOpsL ops with
+      | some (cfg, ov), some fails, some ops =>
+        if !inDomain cfg ov ops then "unmodelled" else
+        let (st, out, raised) := runWith cfg fails (initSt ov (decStrList init)) ops (decOptNat raiseAt)
+        encOps out ++ "#" ++ encBool raised ++ "#" ++ encCtl st
+      | _, _, _ => "unmodelled"
+    | _ => "bad-args"),
+  ("live_spec", fun a => match a with
+    | [cfg, init, ops] =>
+      match decCfg cfg, decOpsL ops with
+      | some (cfg, ov), some ops =>
+        if !inDomain cfg ov ops then "unmodelled" else
+        let r0 := decStrList init
+        encBool (wf cfg ov r0 ops) ++ ";" ++ encStrList (printed cfg ov r0 ops) ++ ";" ++ encStrList (lastFrame cfg ov r0 ops)
+      | _, _ => "unmodelled"
+    | _ => "bad-args")
+]
 
 end RichModel.Drv.C10
